@@ -571,6 +571,12 @@ def to_arg(kind, value):
         return F(value)
     if kind == 'bool':
         return bool(value)
+    if kind == 'syint':
+        return sympy.Integer(int(value))
+    if kind == 'syfloat':
+        return sympy.Float(float(value))
+    if kind == 'syrat':
+        return sympy.Rational(value.numerator, value.denominator)
     if kind == 'arrf':
         return numpy.array([float(x) for x in value], dtype=float)
     if kind == 'arri':
@@ -610,7 +616,7 @@ def env_from_json(j):
 
 
 def env_uses_floats(env) -> bool:
-    return any(k in ('float', 'npfloat', 'arrf', 'fraction') for k, _ in env.values())
+    return any(k in ('float', 'npfloat', 'arrf', 'fraction', 'syfloat', 'syrat') for k, _ in env.values())
 
 
 class NotCanonical(Exception):
@@ -886,8 +892,10 @@ def gen_env(rng, tree, cfg, kinds, extra_names=()):
 def normalise_env(env):
     """a float argument *is* the double nearest to the drawn value: that double is the scope's value"""
     for x, (k, v) in list(env.items()):
-        if k in ('float', 'npfloat'):
+        if k in ('float', 'npfloat', 'syfloat'):
             env[x] = (k, F(float(v)))
+        elif k == 'syint':
+            env[x] = (k, F(int(v)))
         elif k == 'arrf':
             env[x] = (k, [F(float(e)) for e in v])
     return env
@@ -1709,6 +1717,60 @@ def fam_subst(ctx, n):
     return run_cases(ctx, cases)
 
 
+SYMPY_KINDS = ('syint', 'syfloat', 'syrat')
+
+
+def fam_sympy_args(ctx, n):
+    """scope values that are sympy numbers (Integer, Float, Rational - e.g. parameters computed with sympy): scalar,
+    array (sample times containing 0, where `0 * Float` is the sympy Integer 0) and ExpressionVector evaluation in
+    numeric mode.  numpy then computes with object arrays of sympy numbers which qupulse converts back; the value must
+    be the formula's.  An exception is an accepted answer here (sympy.Rational results are refused by design)."""
+    rng = ctx.fork('sympy-args')
+    cases = []
+
+    def sympify_kinds(env, force):
+        names = [x for x, (k, v) in env.items() if not isinstance(v, list)]
+        rng.shuffle(names)
+        for j, x in enumerate(names):
+            if j == 0 and force or rng.random() < 0.5:
+                v = env[x][1]
+                kd = rng.choice(['syint'] if False else (['syfloat', 'syfloat', 'syrat'] + (['syint', 'syint'] if v.denominator == 1 else [])))
+                env[x] = (kd, v)
+        return normalise_env(env)
+
+    for i in range(n):
+        shape = rng.choice(['scalar', 'array', 'array', 'vector'])
+        cfg = Cfg(numbers='dyadic', index=False, bindex=False, sums=False, ite=rng.random() < 0.2, ints=[],
+                  elementwise=['t'] if shape == 'array' else [], array_len=rng.choice([2, 3, 5]))
+        ex = {'mode': 'numeric', 'build': 'string', 'family': 'sympy-args', 'lenient': True}
+        if shape == 'vector':
+            k = rng.randint(2, 4)
+            trees = [gen_num(rng, cfg, rng.randint(0, 2)) for _ in range(k)]
+            env = sympify_kinds(gen_env(rng, tuple(['vecx'] + trees), cfg, ('int', 'float')), True)
+            c = mk_vector(trees, env, {'how': 'eval'})
+            c.family, c.lenient = 'sympy-args', True
+            cases.append(c)
+            ctx.count('sympy-args:vector')
+            continue
+        tree = gen_num(rng, cfg, rng.randint(1, ctx.n(3, 4)))
+        if shape == 'array':
+            # a sympy-valued slope times the sample times, as in a ramp
+            tree = (rng.choice(['add', 'sub']), ('mul', var(rng.choice(['a', 'b'])), var('t')), tree)
+        env = gen_env(rng, tree, cfg, ('int', 'float'))
+        if 't' in env:
+            kd, vals = env['t']
+            vals = list(vals)
+            vals[rng.randrange(len(vals))] = F(0)
+            if rng.random() < 0.5:
+                vals = [F(int(v)) for v in vals]
+                kd = 'arri'
+            env['t'] = (kd, vals)
+        env = sympify_kinds(env, True)
+        cases.append(mk_eval(tree, env, ex))
+        ctx.count('sympy-args:' + shape)
+    return run_cases(ctx, cases, rebuild=lambda t, e: mk_eval(t, e, {'mode': 'numeric', 'build': 'string', 'family': 'sympy-args', 'lenient': True}))
+
+
 EXACT_KINDS = ('int', 'npint', 'tt')
 
 
@@ -2302,6 +2364,7 @@ def run(ctx: core.Ctx):
             ('partial', lambda: fam_partial(ctx, ctx.n(300, 5000))),
             ('subst', lambda: fam_subst(ctx, ctx.n(150, 2500))),
             ('history', lambda: fam_history(ctx, ctx.n(150, 2500))),
+            ('sympy-args', lambda: fam_sympy_args(ctx, ctx.n(250, 4000))),
             ('cached', lambda: fam_cached(ctx, ctx.n(100, 1500))),
             ('roundtrip', lambda: fam_roundtrip(ctx, ctx.n(300, 5000))),
             ('arith', lambda: fam_arith(ctx, ctx.n(300, 5000))),
